@@ -20,6 +20,11 @@ for frag in sorted(glob.glob(os.path.join(root, "harness", "C*", "manifest.json"
 na = json.load(open(os.path.join(root, "not_applicable.json")))
 claimed = {c["property_id"] for c in checks}
 na = [x for x in na if x["property_id"] not in claimed]
+listed = claimed | {x["property_id"] for x in na}
+for l in open(os.path.join(root, "properties.jsonl")):
+    pid = json.loads(l)["id"]
+    if pid not in listed:
+        na.append({"property_id": pid, "reason": "no check registered yet: its harness is still under construction in this session (plan in DESIGN.md section 3); nothing is claimed for it"})
 manifest = {
     "version": 1,
     "setup_cmd": "cd gosym && GOFLAGS=-mod=mod GOPROXY=off GOTOOLCHAIN=local go1.26.8 build -o ../bin/gosym ./cmd/gosym",
